@@ -15,12 +15,23 @@ from ..common import rng, WORK
 TECHNIQUE = ("runtime history monitor: executable reference model (dict of lists) stepped in lock-step with the real columnfile "
              "+ icontract postconditions on its mutators (also switched on for the repository's own columnfile tests); "
              "quiescent-point comparison of titles/nrows and the attribute/item/getcolumn views after every operation; storage-sharing "
-             "probe on copies; bounded-exhaustive operation sequences + random long histories")
+             "probe on copies; bounded-exhaustive operation sequences + random long histories; second engine without a model: "
+             "per-operation snapshot contracts (written column holds the written values, unrelated columns unchanged, every "
+             "column = its snapshot under the ONE selection/permutation, copies share nothing, write-through probes between the "
+             "three views) over fully random parameters incl. columns that alias other columns")
 LEVEL_TEXT = ("Bounded-exhaustive exploration: ALL operation sequences up to depth 3 (quick) / 4 (thorough) over a 19-operation "
               "reduced-parameter alphabet, from four start states (newcolumnfile+set_bigarray, text-file-loaded, colfile_from_dict, "
-              "HDF-loaded), plus random histories of length 10-60. The reference model is compared after every single step.")
+              "HDF-loaded), plus random histories of length 10-60. The reference model is compared after every single step. "
+              "Free engine: 2500 (quick) / 60000 (thorough) random histories of 6-40 operations from six start states (also an "
+              "empty columnfile and integer columns), values given as fresh arrays, python lists, int/float32/strided arrays or "
+              "as another column of the same object (aliases), targets drawn among all current titles, boolean/int/list "
+              "masks incl. all-False (zero rows), removerows with and without tol, random permutations, copyrows by boolean "
+              "mask / index array / list / slice / repeated indices, bigarray get and set in three forms.")
 LEVEL_NOTE = ("Exhaustive only over the reduced alphabet and stated depth; parameters of each operation are fixed functions of the "
-              "current state; sort results are judged by 'key sorted and row multiset preserved' so tie order is not prescribed.")
+              "current state; sort results are judged by 'key sorted and row multiset preserved' so tie order is not prescribed. "
+              "Free engine: an overwrite of an existing integer/float32 column in place may keep the column type (numpy cast "
+              "accepted); a column that the caller made an alias of the written one may follow it; titles that shadow "
+              "attributes of the class (nrows, filter, ...) are not generated.")
 
 RULE = ("a case = one operation history (start state, op sequence); non-trivial = the history contains a row operation after a "
         "column write; distinct = (start state, op sequence)")
@@ -284,13 +295,22 @@ def repo_tests_under_contracts(run, tmpdir):
 
 def check(run, replay=None):
     from ImageD11 import columnfile
-    from .. import contracts_columnfile
+    from .. import contracts_columnfile, c17_free
     contracts_columnfile.install()      # every history below also runs under the postconditions
     os.makedirs(os.path.join(WORK, "tmp"), exist_ok=True)
     tmpdir = tempfile.mkdtemp(prefix="c17_", dir=os.path.join(WORK, "tmp"))
     import contextlib, io, shutil
     try:
         with contextlib.redirect_stdout(io.StringIO()):
+            if replay is not None and "free" in replay["case"]:
+                fr = replay["case"]["free"]
+                rr = rng(replay["seed"], "C17", "free", fr["i"])
+                rr.integers(6, 40)               # the history length was drawn from this stream first
+                c17_free.run_history(run, columnfile, rr, fr["start"], fr["L"],
+                                     tmpdir, "r", dict(start="free", ops=[], free=fr))
+                run.evaluations += 1
+                run.nontrivial.update(["replay", "replay2"])
+                return
             if replay is not None:
                 cs = replay["case"]
                 run_history(run, columnfile, cs["start"], cs["ops"], tmpdir, "r")
@@ -315,7 +335,20 @@ def check(run, replay=None):
                 run.case((start, seq), nontrivial=True, sample=dict(start=start, ops=list(seq)) if i < 2 else None)
                 run_history(run, columnfile, start, seq, tmpdir, start[:3])
                 run.count("random_histories")
+            nfree = 2500 if run.tier == "quick" else 60000
+            for i in range(nfree):
+                r = rng(run.seed, "C17", "free", i)
+                st = c17_free.STARTS[i % len(c17_free.STARTS)]
+                L = int(r.integers(6, 40))
+                fr = dict(i=i, start=st, L=L)
+                run.case(("free", st, i), nontrivial=True, sample=dict(start="free", free=fr) if i < 2 else None)
+                c17_free.run_history(run, columnfile, r, st, L, tmpdir, "f", dict(start="free", ops=[], free=fr))
+                run.count("free_histories")
         repo_tests_under_contracts(run, tmpdir)
+        run.require_counter("free_steps_checked", 10000)
+        run.require_counter("free_alias_writes", 200)
+        run.require_counter("free_steps_on_zero_rows", 200)
+        run.require_counter("free_write_through_probes", 2000)
         run.count("contract_evaluations_in_histories", contracts_columnfile.COUNT["evaluations"])
         run.require_counter("contract_evaluations_in_histories", 1000)
         run.extra["exhaustive_depth"] = depth
